@@ -28,6 +28,33 @@ pub fn last_panic() -> String {
     LAST_PANIC.lock().map(|g| g.clone()).unwrap_or_default()
 }
 
+static TIMEOUTS: std::sync::atomic::AtomicUsize = std::sync::atomic::AtomicUsize::new(0);
+pub const WATCHDOG_SECS: u64 = 20;
+
+/// Too many calls did not return: the drivers stop producing further cases (each abandoned call keeps a core busy).
+pub fn too_many_timeouts() -> bool {
+    TIMEOUTS.load(std::sync::atomic::Ordering::SeqCst) >= 3
+}
+
+/// Runs `f` on a thread of its own (large stack: deeply nested inputs) and waits up to WATCHDOG_SECS for it.
+/// None = it did not return in time (the thread is abandoned).  Non-termination is behaviour to report, not a tool error.
+pub fn watchdog<T: Send + 'static>(f: impl FnOnce() -> T + Send + 'static) -> Option<T> {
+    let (tx, rx) = std::sync::mpsc::channel();
+    let h = std::thread::Builder::new().stack_size(256 << 20).spawn(move || {
+        let _ = tx.send(f());
+    });
+    if h.is_err() {
+        return None;
+    }
+    match rx.recv_timeout(std::time::Duration::from_secs(WATCHDOG_SECS)) {
+        Ok(v) => Some(v),
+        Err(_) => {
+            TIMEOUTS.fetch_add(1, std::sync::atomic::Ordering::SeqCst);
+            None
+        }
+    }
+}
+
 pub enum Compiled {
     Ok(Program, J),
     Err(J),
@@ -36,21 +63,29 @@ pub enum Compiled {
 
 /// Compile `src`; the AST is exported through the public parser (same entry point).
 pub fn compile(src: &str) -> Compiled {
-    let r = catch_unwind(AssertUnwindSafe(|| {
-        let ast = cel_parser::Parser::new().parse(src);
-        let prog = Program::compile(src);
-        (ast, prog)
-    }));
+    let owned = src.to_string();
+    // everything that is not Send (the parser's error values) is turned into JSON on the worker thread
+    let r = watchdog(move || {
+        catch_unwind(AssertUnwindSafe(|| {
+            let ast = cel_parser::Parser::new().parse(&owned);
+            let prog = Program::compile(&owned);
+            match (ast, prog) {
+                (Ok(ast), Ok(prog)) => Ok((prog, enc::ast(&ast))),
+                (ast, prog) => {
+                    let errs = match prog {
+                        Err(e) => e.errors.iter().map(|pe| json!({"line": pe.pos.0, "col": pe.pos.1, "msg": pe.msg, "text": format!("{}", pe)})).collect::<Vec<_>>(),
+                        Ok(_) => vec![],
+                    };
+                    Err(json!({"k": "compile_err", "errors": errs, "parser_ok": ast.is_ok()}))
+                }
+            }
+        }))
+    });
     match r {
-        Err(_) => Compiled::Panic(last_panic()),
-        Ok((Ok(ast), Ok(prog))) => Compiled::Ok(prog, enc::ast(&ast)),
-        Ok((ast, prog)) => {
-            let errs = match prog {
-                Err(e) => e.errors.iter().map(|pe| json!({"line": pe.pos.0, "col": pe.pos.1, "msg": pe.msg, "text": format!("{}", pe)})).collect::<Vec<_>>(),
-                Ok(_) => vec![],
-            };
-            Compiled::Err(json!({"k": "compile_err", "errors": errs, "parser_ok": ast.is_ok()}))
-        }
+        None => Compiled::Panic(format!("compile did not return within {} s", WATCHDOG_SECS)),
+        Some(Err(_)) => Compiled::Panic(last_panic()),
+        Some(Ok(Ok((prog, ast)))) => Compiled::Ok(prog, ast),
+        Some(Ok(Err(e))) => Compiled::Err(e),
     }
 }
 
